@@ -283,6 +283,16 @@ Example C06_ord_premises_satisfiable :
   o_ctr (ostep all_fixed ex_iname (orun all_fixed ex_iname ex_ohistory empty_oserver) (ODetach 11%N)) = [].
 Proof. split; [apply ok_empty|]. vm_compute. repeat split; reflexivity. Qed.
 
+(* SETDATA with PR_NAME_FLAGS = QUIET|ADDTOINDEX: the quietly created, indexed child carries the mark of the session that was
+   subscribed before it existed (so its later updates, its removal and its owner's departure are told), it is in its parent's
+   index, and the existing node named in the same command keeps its data *)
+Example C06_ord_quiet_indexed_child_is_marked :
+  let os := orun all_fixed ex_iname ex_ohistory3 (@empty_oserver ExOps) in
+  option_map n_subs (find_node (sv_tree (xs_sv (o_x os))) [1%N; 11%N; 7%N; 8%N]) = Some [(10%N, 1%N)] /\
+  o_idx os = [([1%N; 11%N; 7%N], [8%N])] /\
+  option_map n_data (find_node (sv_tree (xs_sv (o_x os))) [1%N; 11%N; 7%N]) = Some 5%N.
+Proof. vm_compute. repeat split; reflexivity. Qed.
+
 (* AS IF NEVER with ordered children: premises as for C06_as_if_never, on histories of the model of Refl/IsoOrd.v.  After s's
    connection has ended, trees (below host level), sessions and privileges agree with the run from which everything s did has
    been erased, and so do the ordered indices and the name counters of ALL nodes: the others' INSERTORDEREDDATA commands
